@@ -24,7 +24,8 @@ def ops_with_dump(rng, n, **kw):
 def scenario(rng):
     level = rng.choice([0, 1, 1, 2, 2])
     frames = rng.choice([0, 1, 8, 200]) if level == 2 else rng.choice([0, 8])
-    lines = ["TRACER %d %d" % (level, frames)]
+    # flavour of the traced allocator: complete, or lacking realloc and/or calloc (what a user-written allocator looks like)
+    lines = ["TRACER %d %d %d" % (level, frames, rng.choice([0, 0, 1, 2, 3]))]
     if rng.random() < 0.45:
         lines.append("MAIN " + " ".join(ops_with_dump(rng, rng.randint(8, 34))))
         return lines
